@@ -75,6 +75,40 @@ class Model(object):
             return ci.attr_types.get(expr.attr)
         return None
 
+    def type_of(self, v, ci, local, depth=0):
+        """class of the value of an expression: constructor call, element of a typed container attribute, typed local
+        or attribute, or the result of a method all of whose non-None returns have one class"""
+        if isinstance(v, ast.Call) and unparse(v.func) in self.classes:
+            return unparse(v.func)
+        if isinstance(v, ast.Subscript) and isinstance(v.value, ast.Attribute) \
+                and unparse(v.value.value) == "self" and ("[]" + v.value.attr) in ci.attr_types:
+            return ci.attr_types["[]" + v.value.attr]
+        if isinstance(v, ast.Name):
+            return local.get(v.id)
+        if isinstance(v, ast.Attribute) and unparse(v.value) == "self":
+            return ci.attr_types.get(v.attr)
+        if isinstance(v, ast.Call) and isinstance(v.func, ast.Attribute) and depth < 4:
+            rc = self.receiver_class(v.func.value, ci, local)
+            if rc is not None and v.func.attr in self.classes[rc].methods:
+                return self.return_type(rc, v.func.attr, depth + 1)
+        return None
+
+    def return_type(self, cls_name, method, depth=0):
+        ci = self.classes[cls_name]
+        fn = ci.methods[method]
+        local = {}
+        for n in ast.walk(fn):
+            if isinstance(n, ast.Assign) and len(n.targets) == 1 and isinstance(n.targets[0], ast.Name):
+                t_ = self.type_of(n.value, ci, local, depth)
+                if t_ is not None:
+                    local[n.targets[0].id] = t_
+        found = set()
+        for n in ast.walk(fn):
+            if isinstance(n, ast.Return) and n.value is not None \
+                    and not (isinstance(n.value, ast.Constant) and n.value.value is None):
+                found.add(self.type_of(n.value, ci, local, depth))
+        return found.pop() if len(found) == 1 else None
+
     def walk(self, cls_name, method, held=(), depth=0, seen=None, out=None):
         """Events reachable from a method with the lock set held: acquire / join / wait / set / clear / write:<attr> / call"""
         out = [] if out is None else out
@@ -126,12 +160,9 @@ class Model(object):
                     continue
                 # assignments that type locals
                 if isinstance(st, ast.Assign) and isinstance(st.targets[0], ast.Name):
-                    v = st.value
-                    if isinstance(v, ast.Call) and unparse(v.func) in self.classes:
-                        local[st.targets[0].id] = unparse(v.func)
-                    elif isinstance(v, ast.Subscript) and isinstance(v.value, ast.Attribute) \
-                            and unparse(v.value.value) == "self" and ("[]" + v.value.attr) in ci.attr_types:
-                        local[st.targets[0].id] = ci.attr_types["[]" + v.value.attr]
+                    t_ = self.type_of(st.value, ci, local)
+                    if t_ is not None:
+                        local[st.targets[0].id] = t_
                 # attribute writes
                 if isinstance(st, (ast.Assign, ast.AugAssign)):
                     tgts = st.targets if isinstance(st, ast.Assign) else [st.target]
